@@ -16,7 +16,7 @@ import traceback
 
 from . import canon
 from .rng import run_seed
-from .seams import SimKill
+from .seams import SimKill, SimDeadlock
 
 VERIF = os.path.dirname(os.path.dirname(os.path.abspath(__file__)))
 DEFAULT_SEED = 20260926
@@ -113,6 +113,10 @@ def run_case(prop, case, known):
         return v.record(), ctx, None
     except SimKill:
         return None, ctx, 'SimKill escaped the simulated call:\n' + traceback.format_exc()
+    except SimDeadlock as e:
+        # a call into the library would never return (lock seam): no result, no error - whatever the property
+        # demands of the call's outcome is not delivered
+        return Violation('call_blocks_forever', 'step %s: %s' % (ctx.step, e), {'kind': 'call_blocks_forever'}, ctx.step).record(), ctx, None
     except Exception:
         return None, ctx, traceback.format_exc()
 
